@@ -325,11 +325,50 @@ class C14(Property):
         "Flatland.C14.Proofs.zero_step_raises",
         "Flatland.C14.Proofs.C14_zero_step_ok",
         "Flatland.C14.Proofs.find_print_denotes_lax",
+        # k4: pySlice = the documented index arithmetic of slicing (Proofs/Lemmas/C14SliceSpec, Proofs/C14SliceSpec)
+        "Flatland.C14.Proofs.pySlice_spec",
+        "Flatland.C14.Proofs.adjust_eq_sliceIx",
+        "Flatland.C14.Proofs.countUp_eq_ceil",
+        "Flatland.C14.Proofs.countDown_eq_ceil",
+        "Flatland.C14.Proofs.pySlice_getElem?",
+        "Flatland.C14.Proofs.pySlice_length",
+        "Flatland.C14.Proofs.pySlice_lt",
+        "Flatland.C14.Proofs.pySlice_ascending",
+        "Flatland.C14.Proofs.pySlice_descending",
+        "Flatland.C14.Proofs.getSlice_eq_pySlice",
+        "Flatland.C14.Proofs.pySlice_step_one",
+        "Flatland.C14.Proofs.pySlice_reverse",
+        "Flatland.C14.Proofs.pySlice_all",
+        "Flatland.C14.Proofs.slice_children_python",
+        "Flatland.C14.Proofs.C14_slice_is_python_slice",
+        "Flatland.C14.Proofs.stepDen_slice_is_python_slice",
+        # k4: the AST level without UniSteps (Proofs/C14Ranked)
+        "Flatland.C14.Proofs.canonicalize_soundR",
+        "Flatland.C14.Proofs.denOrd_step",
+        "Flatland.C14.Proofs.denoteStepsR_compile",
+        "Flatland.C14.Proofs.denoteR_compile",
+        "Flatland.C14.Proofs.denoteR_forget_of_uni",
+        "Flatland.C14.Proofs.denOrd_canonicalize",
+        "Flatland.C14.Proofs.eval_denotes_gen",
+        "Flatland.C14.Proofs.eval_denotes_raw_gen",
+        "Flatland.C14.Proofs.eval_cancel_denotes_gen",
+        "Flatland.C14.Proofs.denoteR_cancel_canon",
+        "Flatland.C14.Proofs.find_print_cancel_gen",
+        "Flatland.C14.Proofs.find_print_denotes_gen",
+        "Flatland.C14.Proofs.find_print_denotes_cor",
+        "Flatland.C14.Proofs.find_print_cancel_cor",
+        "Flatland.C14.Proofs.eval_denotes_cor",
+        "Flatland.C14.Proofs.denOps_compile_cor",
     ]
+    # the modules the k4 theorems live in (Proofs.C14Ranked imports Proofs.C14 and Proofs.C14SliceSpec)
+    extra_proof_modules = ["Proofs.C14Ranked"]
     generated_obligations = []
     trusted_base = [
         "Python's int(str) grammar, list slicing and `re` semantics of the two pinned regexes are reproduced as "
-        "executable Lean functions (pyInt, pySlice, scan) validated by correspondence, not proved against CPython",
+        "executable Lean functions (pyInt, pySlice, scan) validated by correspondence, not proved against CPython; "
+        "pySlice is PROVED equal to the index arithmetic of slice.indices / PySlice_AdjustIndices as written out in "
+        "Flatland.PyList.adjust (pySlice_spec, getSlice_eq_pySlice) — what stays trusted about slicing is that "
+        "transcription of the CPython documentation (shared with C09, compared there with the real list type)",
         "Unicode Nd decades / int() whitespace / int digit limit are generated from the running interpreter",
         "element identity = position in a functional tree; parent pointers are C08's subject, not C14's",
     ]
@@ -340,8 +379,10 @@ class C14(Property):
         "a slice step written as 0 raises ValueError when it is reached (9884fd3; zero_step_raises, "
         "find_print_denotes_lax); with strict lookups AND such a step a path can raise LookupError or ValueError, "
         "and the property text does not say which: the op-list theorems (evalOps_denotes_gen, find_denotes_gen) state "
-        "the precedence the code has (slice depth, then sequence order), the AST-level strict theorems assume no zero "
-        "step (UniSteps), the oracle accepts either error kind that some element raises, the correspondence is exact",
+        "the precedence the code has (slice depth, then sequence order), and so do the AST-level theorems "
+        "(find_print_denotes_gen, find_print_cancel_gen over the ranked reading denoteR of spec B; the older ones "
+        "with UniSteps are corollaries), the oracle accepts either error kind that some element raises, the "
+        "correspondence is exact",
         "a start element that was removed from its List (popped / deleted / replaced) is outside model A: oracle "
         "only (expected: it is the root of its own tree); the expression cache is emptied by the oracle when full",
     ]
@@ -832,8 +873,16 @@ C14.level_note = (
     "kind of error can arise (Uni: no slice step written as 0, or non-strict lookups) the precedence is immaterial "
     "and `denOrd` forgets to the plain reading `denOps` (denOrd_forget_of_uni, proved directly; evalOps_denotes_cor, "
     "evalOps_denotes, find_denotes; single_spec restates the match of the model's find, i.e. holds by construction); "
-    "the AST-level theorems below keep UniSteps, because spec B's step-by-step `denote` meets errors in yet another "
-    "order (step-major) — with strict lookups AND a zero step the documentation does not say which exception is "
+    "spec B's step-by-step `denote` meets errors in yet another order (step-major), so the AST level has a ranked "
+    "reading too (k4): `denoteStepsR`/`denoteR` read the AST one element at a time with the same precedence as "
+    "`denOrd` (depth = bracket steps passed); the compiled AST under `denOrd` IS that reading (denoteR_compile, no "
+    "hypothesis), `_canonicalize` preserves it on the Canon domain (canonicalize_soundR) and is the cancelled path "
+    "off it (denOrd_canonicalize), hence find(print p) = findSpecR p on the Canon domain and = findSpecR (cancel p) "
+    "for every spellable path — strict or not, zero steps or not, including WHICH exception is raised "
+    "(find_print_denotes_gen, find_print_cancel_gen, eval_denotes_gen); where one error kind only can arise the ranked "
+    "reading forgets to `denote` (denoteR_forget_of_uni) and the UniSteps theorems follow (find_print_denotes_cor, "
+    "find_print_cancel_cor, eval_denotes_cor, denOps_compile_cor) — with strict lookups AND a zero step the "
+    "documentation does not say which exception is "
     "raised, so the oracle accepts either kind that some element raises, while the correspondence compares the "
     "exception exactly (key `result`) and compares Lean's `denOrd` (outcome and error depth) with a Python "
     "transcription of `denOrd` over the documented navigation of the real elements (key `ordered`); compiled AST "
@@ -843,10 +892,18 @@ C14.level_note = (
     "(cancel p) for every path (find_print_cancel, the exact content of KF-C14-a; C14_full_fails is its negation "
     "witness); a step written as 0 raises ValueError when reached, strict or not (zero_step_raises, "
     "C14_zero_step_ok — KF-C14-b is closed by 9884fd3); results strictly increasing in document order "
-    "(find_sorted). Not proved at the AST level: strict lookups on a path that also has a zero step (denOps_compile / "
-    "find_print_denotes keep UniSteps; the op-list theorems above cover it). Tied to the code by correspondence "
+    "(find_sorted). Slicing (k4): for every length and every start/stop/nonzero step, pySlice n a b c = "
+    "[start + k*step | k < count] with (start, stop, step) = slice(a,b,c).indices(n) written out as "
+    "PySlice_AdjustIndices does (PyList.adjust, the reference list of C08-C10) and count = max 0 ceil((stop-start)/step) "
+    "(pySlice_spec, adjust_eq_sliceIx, countUp_eq_ceil, countDown_eq_ceil); strictly increasing / decreasing positions "
+    "inside the list (pySlice_ascending, pySlice_descending, pySlice_lt); list[a:b:c] of the reference list = the "
+    "elements at these positions, ValueError for step 0 (getSlice_eq_pySlice); step 1 = drop/take (pySlice_step_one), "
+    "[::-1] = reverse (pySlice_reverse), [:] = identity (pySlice_all); the evaluator's SLICE op and spec B's slice "
+    "step select exactly children[a:b:c] (C14_slice_is_python_slice, stepDen_slice_is_python_slice). Tied to the "
+    "code by correspondence "
     "only: scan = _tokenize_re.findall (regex text pinned; exhaustive over all strings of length <= 4/5 over "
-    "`/.[]:-01a\\`), pyInt = int() and pySlice = list slicing (exhaustive small scopes against Python itself), the "
+    "`/.[]:-01a\\`), pyInt = int(); pySlice = list slicing is additionally compared exhaustively on small scopes "
+    "against Python itself (now redundant with pySlice_spec up to the transcription of slice.indices), the "
     "element-tree navigation (_index, parent, root, children) of the real classes; start elements removed from "
     "their List are checked by the oracle only (KF-C14-d).")
 
